@@ -248,14 +248,28 @@ fn aim_roll(seed: u64, policy: &str) -> Script {
             let last = live.last_position(0).unwrap_or(0);
             live.push(Step::Truncate { q: 0, p: last });
         }
+        let mut first = true;
         for _ in 0..2 + live.rng.below(3) {
-            match live.rng.below(6) {
+            let pick = if first && live.rng.chance(40) { 3 } else { live.rng.below(6) };
+            first = false;
+            match pick {
                 0 | 1 | 2 => {
                     let p = live.last_position(1).unwrap_or(0) + live.rng.below(3);
                     live.push(Step::Truncate { q: 1, p });
                 }
                 3 => {
                     live.push(Step::Create { q: 2 });
+                    if live.rng.chance(50) {
+                        // a roll-over caused by create_queue leaves the old file to the next GC
+                        // pass: appends on empty queues in that window
+                        let payload = live.payload(9);
+                        live.push(Step::Append { q: 2, pos: None, batch: vec![payload] });
+                        let payload = live.payload(4);
+                        live.push(Step::Append { q: 1, pos: None, batch: vec![payload] });
+                        if live.rng.chance(50) {
+                            live.push(Step::Restart);
+                        }
+                    }
                     live.push(Step::Delete { q: 2 });
                 }
                 4 => {
@@ -294,6 +308,28 @@ fn aim_batch(seed: u64, policy: &str) -> Script {
         } else {
             let len = live.rng.below(50) as usize;
             batch.push(live.payload(len));
+        }
+        if live.rng.chance(35) {
+            // periodic record boundaries: an item end e such that e + (BLOCK - HDR) is an item end
+            // as well (what remains after a whole Middle frame is cut out still parses)
+            let period = BLOCK - HDR; // 32761 = 181 * 181
+            let mut batch = Vec::new();
+            if live.rng.chance(50) {
+                for _ in 0..(3 * 181 + live.rng.below(120)) {
+                    batch.push(live.payload(181 - 12));
+                }
+            } else {
+                let a = 40 + live.rng.below(20_000) as usize;
+                for _ in 0..3 + live.rng.below(3) {
+                    batch.push(live.payload(a - 12));
+                    batch.push(live.payload(period - a - 12));
+                }
+            }
+            live.push(Step::Append { q: 0, pos: None, batch });
+            if live.rng.chance(30) {
+                live.push(Step::Restart);
+            }
+            continue;
         }
         let middles = 1 + live.rng.below(4);
         for _ in 0..middles {
